@@ -18,8 +18,9 @@ EXPLANATION = (
     "buffer is one byte; end of input exits with status 1. R6 (BITS): OUT/PUTS print bits 7:0, PUTSP prints bits 7:0 then "
     "15:8 of each word, PUTN prints R0 reinterpreted as i16. R7 (DOM): in PUTS/PUTSP every print is dominated by a zero test on the printed "
     "character whose zero side prints nothing more, and the only other exit of the printing loop is the exhausted address range."
-    ' R6/R7 read PUTS/PUTSP either off the loop or off an iterator chain (source.map.flat_map.take_while.for_each) whose closures are composed symbolically.'
+    ' R6/R7 read PUTS/PUTSP either off the loop or off an iterator chain (source.map.flat_map.take_while.for_each) whose closures are composed symbolically. R5 also: read_char hands every 7-bit input byte on unchanged (its decision is evaluated on the 128 values).'
 )
+
 NOT_DECIDED = ("the executed sequence and exact stdout for all images and inputs (UTF-8 re-encoding of bytes >= 0x80 is value-level)")
 
 RT = "lace::runtime::"
@@ -434,6 +435,40 @@ def run(ctx):
         ctx.oblig(ok, {nm: "one read_char on every path"}, "single call dominating the arm's exits, not in a loop")
         if not ok:
             ctx.violation("input-bytes|%s" % nm, sp_file_line(tr.term(tg[vec]).get("sp")), "%s does not read exactly one input byte on every path (%d read_char calls)" % (nm, len(rc)))
+    # the character handed to GETC/IN is the byte that was read: read_char's decision on the byte is evaluated for every 7-bit value
+    # (the 128 bytes every terminal and every piped script can deliver; what becomes of a byte >= 0x80 is lace's own choice)
+    rcf = ctx.fn(RT + "read_char")
+    starts = [b for b in sorted(rcf.live_blocks()) if rcf.term(b)["k"] == "switch" and (kit.switch_on_discr_of_local(rcf, b) or (None, None))[1] == "core::option::Option"]
+    ctx.instance(1)
+    bad7 = None
+    if starts:
+        from .. import formula as _f
+        tree7 = _f.decision(rcf, start=starts[0])
+        for bv in range(128):
+            def subst7(e, _b=bv):
+                if e[0] == "discr":
+                    return 1
+                if e[0] == "field" and str(e[2]) == "0" and isinstance(e[1], tuple) and e[1][0] == "downcast" and e[1][2] == "Some":
+                    return _b
+                return None
+            env7 = {"subst": subst7, "prog": prog, "bool_not": True,
+                    "calls": {"<impl u8>::is_ascii": (lambda x: 1 if x is not None and x < 128 else 0),
+                              "<impl u8>::is_ascii_control": (lambda x: 1 if x is not None and (x < 32 or x == 127) else 0),
+                              "<impl u8>::is_ascii_graphic": (lambda x: 1 if x is not None and 33 <= x <= 126 else 0)}}
+            try:
+                lab7 = _f.eval_decision(tree7, env7)
+                got7 = _f.evaluate(lab7, env7) if lab7 is not None else None
+            except (_f.Unknown, _f.Overflow) as ex7:
+                got7 = "?%s" % ex7
+            if got7 != bv:
+                bad7 = (bv, got7)
+                break
+    else:
+        bad7 = ("-", "no match on the byte read")
+    ctx.oblig(bad7 is None, {"read_char": "every byte 0x00..0x7F is handed on unchanged"}, "decision evaluated on the 128 seven-bit values")
+    if bad7 is not None:
+        ctx.violation("input-value", rcf.file_line(), "read_char turns the input byte %s into %s: GETC/IN must hand the program the byte that was read (every 7-bit value unchanged)"
+                      % ("0x%02X" % bad7[0] if isinstance(bad7[0], int) else bad7[0], ("0x%04X" % bad7[1]) if isinstance(bad7[1], int) else bad7[1]))
     rb = ctx.fn(RT + "read_byte_stdin")
     bufs = [s for b, i, s in rb.assigns() if s["r"]["k"] == "repeat" or (s["r"]["k"] == "agg" and s["r"].get("ak") == "array")]
     ok = any("1" in str(s["r"].get("n", "")) or len(s["r"].get("ops", [])) == 1 for s in bufs)
